@@ -161,6 +161,24 @@ func fieldAlphabet() []fieldCase {
 	add("Reflect(NaN struct)", log.Reflect("r", nanStruct{math.NaN()}), anystr())
 	add("Reflect(error)", log.Reflect("r", errors.New("boom")), raw(errors.New("boom")))
 	add("Reflect(marshal error with hostile text)", log.Reflect("r", badMarshal{"ctl \x01\x7f \xff q\" nl\n \U000e0001"}), anystr())
+	// values whose top-level type is harmless but which reach something unmarshallable only for SOME values
+	// (through an interface, a non-empty slice, a non-nil pointer), next to good values of the very same type:
+	// a verdict remembered per type instead of per value turns the good ones into error strings
+	type holder struct {
+		A int `json:"a"`
+		V any `json:"v"`
+	}
+	type chanBox struct{ C chan int }
+	add("Reflect(map[string]any holding a func)", log.Reflect("r", map[string]any{"cb": func() {}}), anystr())
+	add("Reflect(map[string]any good, same type)", log.Reflect("r", map[string]any{"cb": "fine"}), raw(map[string]any{"cb": "fine"}))
+	add("Reflect([]any holding a chan)", log.Reflect("r", []any{1, make(chan int)}), anystr())
+	add("Reflect([]any good, same type)", log.Reflect("r", []any{1, "two", nil}), raw([]any{1, "two", nil}))
+	add("Reflect(struct with an interface field holding a func)", log.Reflect("r", holder{1, func() {}}), anystr())
+	add("Reflect(struct with an interface field, good)", log.Reflect("r", holder{2, []int{3}}), raw(holder{2, []int{3}}))
+	add("Reflect(non-nil pointer to an unmarshallable struct)", log.Reflect("r", &chanBox{make(chan int)}), anystr())
+	add("Reflect(nil pointer of that type)", log.Reflect("r", (*chanBox)(nil)), null())
+	add("Any(map[string]any holding a chan)", log.Any("r", map[string]any{"c": make(chan int)}), anystr())
+	add("Any(map[string]any good)", log.Any("r", map[string]any{"c": 1}), raw(map[string]any{"c": 1}))
 	// json.Marshaler / TextMarshaler values: whatever the marshaler returns, the line is one valid JSON line
 	// (encoding/json's own contract: output validated and compacted, invalid output = marshal error)
 	pretty := "{\n  \"a\": 1,\n  \"b\": [ 1,\t2 ],\r\n  \"c\": \"x y\"\n}"
